@@ -172,6 +172,19 @@ CHECKS["C06"] = dict(
          "words comes from iterating the real dictionary in the harness (TLC is the oracle, not the enumerator).",
     ref="4 C06", technique="TLA+ model checking (TLC) + trace validation (exhaustive over the dictionary in thorough)")
 
+CHECKS["C16"] = dict(
+    text="The JS-facing Linter object (user words in insertion order with case-folded ids, the word list the lint "
+         "group was last synchronised with, the ignore list) is specified in spec/JsLinter.tla; TLC checks, over all "
+         "call sequences within bounds, that a clone built from the exported words/ignore list behaves the same, "
+         "that imported words are accepted and ignored contexts stay hidden. Every TLC call sequence and random "
+         "sessions over real texts in both languages run on the real harper_wasm::Linter (native build); the "
+         "stateful trace spec (spec/trace/Trace_JsLinter.tla) checks every Lint (inside the text, no overlap, "
+         "problem text = span), every apply_suggestion against SpansOps!Apply, ignore = previous result minus that "
+         "identity, JSON round trips, and the export/import clone on probe texts.",
+    note="Trusted: TLC. Methods returning JsValue need a JS host and are not exercised. Lints sharing the ignored "
+         "lint's identity (kind, message, flagged text, tokens within two characters) count as that lint.",
+    ref="4 C16", technique="TLA+ model checking (TLC) + spec-to-code replay + stateful trace validation")
+
 NOT_YET = {}
 
 
